@@ -579,6 +579,7 @@ fn item_v(i: &Item) -> Value {
         }
         Item::Static(c) => {
             m = node("Static", c.span());
+            m.insert("mut".into(), json!(matches!(c.mutability, syn::StaticMutability::Mut(_))));
             m.insert("name".into(), json!(c.ident.to_string()));
             m.insert("ty".into(), json!(toks(&c.ty)));
             m.insert("e".into(), expr_v(&c.expr));
